@@ -28,6 +28,8 @@ import (
 type Config struct {
 	A []uint32 `json:"a"` // thresholds of the rules on resource a, in list order
 	B []uint32 `json:"b"`
+	// SameID: every rule carries the same non-empty ID (an ID is a label, not a key)
+	SameID bool `json:"same_id,omitempty"`
 }
 
 func (c Config) String() string { b, _ := json.Marshal(c); return string(b) }
@@ -79,11 +81,17 @@ func (s *scen) Reset() {
 	var all []*isolation.Rule
 	for i, n := range s.cfg.A {
 		r := &isolation.Rule{ID: fmt.Sprintf("a%d", i), Resource: "a", MetricType: isolation.Concurrency, Threshold: n}
+		if s.cfg.SameID {
+			r.ID = "same"
+		}
 		s.rules["a"] = append(s.rules["a"], r)
 		all = append(all, r)
 	}
 	for i, n := range s.cfg.B {
 		r := &isolation.Rule{ID: fmt.Sprintf("b%d", i), Resource: "b", MetricType: isolation.Concurrency, Threshold: n}
+		if s.cfg.SameID {
+			r.ID = "same"
+		}
 		s.rules["b"] = append(s.rules["b"], r)
 		all = append(all, r)
 	}
@@ -231,6 +239,7 @@ func configs() []Config {
 		{A: []uint32{1}}, {A: []uint32{2}}, {A: []uint32{3}},
 		{A: []uint32{2}, B: []uint32{1}}, {A: []uint32{3, 2}}, {A: []uint32{2, 3}}, {A: []uint32{1, 3}, B: []uint32{2}},
 		{A: []uint32{1<<32 - 1}},
+		{A: []uint32{2, 3}, SameID: true}, {A: []uint32{1, 3}, B: []uint32{2}, SameID: true},
 	}
 }
 
